@@ -8,14 +8,16 @@ namespace Pt
 namespace LG
 
 /-- one level of a chain with everything the generator attaches to it: the variable `v`, its
-    unique name `u`, the constant bounds `l`, `h`, the temporaries and instruction ids of the hoisted
-    bounds -/
+    unique name `u`, the bounds `lo`, `hi` as in the index lambda and as generated (`lb`, `ub`), the
+    temporaries and instruction ids of the hoisted bounds -/
 structure RL where
   op : RedOp
   v : String
   u : String
-  l : Int
-  h : Int
+  lo : SExpr
+  hi : SExpr
+  lb : SExpr
+  ub : SExpr
   tl : String
   il : String
   tu : String
@@ -23,7 +25,7 @@ structure RL where
 
 namespace RL
 /-- as in the index lambda -/
-def sem (r : RL) : Level := (r.op, r.v, .int r.l, .int r.h)
+def sem (r : RL) : Level := (r.op, r.v, r.lo, r.hi)
 /-- after `ReductionBoundsReplacer` -/
 def hoisted (r : RL) : Level := (r.op, r.v, .var r.tl, .var r.tu)
 /-- after the renaming of the reduction variables -/
@@ -33,7 +35,7 @@ def ker (r : RL) : Level := (r.op, r.u, hoistedLo r.tl, hoistedHi r.tu)
 def nb (r : RL) : String × SExpr × SExpr := (r.v, .var r.tl, .var r.tu)
 def pair (r : RL) : String × String := (r.v, r.u)
 def hs (r : RL) : List Hoisted :=
-  [{ var := r.v, temp := r.tl, id := r.il, e := .int r.l }, { var := r.v, temp := r.tu, id := r.iu, e := .int r.h }]
+  [{ var := r.v, temp := r.tl, id := r.il, e := r.lb }, { var := r.v, temp := r.tu, id := r.iu, e := r.ub }]
 def temps (r : RL) : List String := [r.tl, r.tu]
 end RL
 
@@ -329,84 +331,107 @@ theorem Ren.step {ρ : List (String × String)} {Δ Γ : List (String × Int)} (
       · rw [lookupIxL_cons, if_neg hvx]
         exact h.only x hρ
 
-/-- the bound temporaries hold the bounds, as 0-d arrays -/
-def TempsHold (σl : Store) (ls : List RL) : Prop :=
-  ∀ r ∈ ls, (∃ a, σl.get? r.tl = some a ∧ a.shape = [] ∧ a.get [] = .i r.l) ∧
-    (∃ a, σl.get? r.tu = some a ∧ a.shape = [] ∧ a.get [] = .i r.h)
+/-- the bound temporaries hold the bounds (`VL r`, `VH r`), as 0-d arrays -/
+def TempsHold (σl : Store) (VL VH : RL → Val) (ls : List RL) : Prop :=
+  ∀ r ∈ ls, (∃ a, σl.get? r.tl = some a ∧ a.shape = [] ∧ a.get [] = VL r) ∧
+    (∃ a, σl.get? r.tu = some a ∧ a.shape = [] ∧ a.get [] = VH r)
 
-theorem eval_temp {σl : Store} {t : String} {n : Int} {pt : Idx} {Γ : List (String × Int)}
-    (ha : ∃ a, σl.get? t = some a ∧ a.shape = [] ∧ a.get [] = .i n) (hΓ : lookupIxL Γ t = none) :
-    eval { pt := pt, ix := Γ, arr := σl } (.var t) = .i n := by
+theorem eval_temp {σl : Store} {t : String} {v : Val} {pt : Idx} {Γ : List (String × Int)}
+    (ha : ∃ a, σl.get? t = some a ∧ a.shape = [] ∧ a.get [] = v) (hΓ : lookupIxL Γ t = none) :
+    eval { pt := pt, ix := Γ, arr := σl } (.var t) = v := by
   obtain ⟨a, h1, h2, h3⟩ := ha
   have e1 : Env.lookupIx { pt := pt, ix := Γ, arr := σl } t = none := hΓ
   have e2 : Env.lookupArr { pt := pt, ix := Γ, arr := σl } t = some a := h1
   simp only [eval, e1, e2, h2, if_true, h3]
 
+/-- loopy's spelling `-1 + u + 1` of a hoisted upper bound is the bound, as an integer -/
+theorem toInt_hoistedHi (v : Val) : (Val.add (Val.add (.i (-1)) v) (.i 1)).toInt? = v.toInt? := by
+  cases v with
+  | i n => show some (-1 + n + 1) = some n; congr 1; omega
+  | b c => cases c <;> rfl
+  | q r => rfl
+  | undef => rfl
+
 /-- **a chain of reductions as read back from the kernel** (unique variable names, bounds in
     temporaries) evaluates to what the chain of the index lambda evaluates to, if the bodies do
     whenever the loop environments correspond.  `P`: whatever else is known of the kernel's loop
     environment and survives binding a unique name; the index lambda's chain is `Safe`, and so is
-    the body wherever it is evaluated. -/
+    the body wherever it is evaluated; `V`: the chain's variables — the only names the index
+    lambda's loop environment ever binds; a bound that is evaluated (safely) has the value its
+    temporary holds. -/
 theorem chain_eval (σl : Store) (bs : List (String × Arr Val)) (P : List (String × Int) → Prop) (pK p : Idx)
-    (body bodyK : SExpr) (U T : List String) (hUT : ∀ t ∈ T, t ∉ U)
+    (body bodyK : SExpr) (U T V : List String) (VL VH : RL → Val) (hUT : ∀ t ∈ T, t ∉ U)
     (hP : ∀ Γ u n, u ∈ U → P Γ → P ((u, n) :: Γ)) :
     ∀ (rest : List RL) (ρp : List (String × String)) (Δ Γ : List (String × Int)),
-      Ren ρp Δ Γ → P Γ → (∀ t ∈ T, lookupIxL Γ t = none) →
-      (∀ r ∈ rest, r.u ∈ U ∧ r.tl ∈ T ∧ r.tu ∈ T ∧ r.v ∉ ρp.map (·.1) ∧ r.u ∉ ρp.map (·.2)) →
-      (rest.map (·.v)).Nodup → (rest.map (·.u)).Nodup → TempsHold σl rest →
+      Ren ρp Δ Γ → P Γ → (∀ t ∈ T, lookupIxL Γ t = none) → (∀ x, x ∉ V → lookupIxL Δ x = none) →
+      (∀ r ∈ rest, r.u ∈ U ∧ r.tl ∈ T ∧ r.tu ∈ T ∧ r.v ∈ V ∧ r.v ∉ ρp.map (·.1) ∧ r.u ∉ ρp.map (·.2)) →
+      (rest.map (·.v)).Nodup → (rest.map (·.u)).Nodup → TempsHold σl VL VH rest →
+      (∀ r ∈ rest, ∀ Δ', (∀ x, x ∉ V → lookupIxL Δ' x = none) →
+        (Safe { pt := p, ix := Δ', arr := bs } r.lo → eval { pt := p, ix := Δ', arr := bs } r.lo = VL r) ∧
+        (Safe { pt := p, ix := Δ', arr := bs } r.hi → eval { pt := p, ix := Δ', arr := bs } r.hi = VH r)) →
       Safe { pt := p, ix := Δ, arr := bs } (mkChain (rest.map RL.sem) body) →
       (∀ Δ' Γ', Ren (ρp ++ rest.map RL.pair) Δ' Γ' → P Γ' → Safe { pt := p, ix := Δ', arr := bs } body →
         eval { pt := pK, ix := Γ', arr := σl } bodyK = eval { pt := p, ix := Δ', arr := bs } body) →
       eval { pt := pK, ix := Γ, arr := σl } (mkChain (rest.map RL.ker) bodyK) =
         eval { pt := p, ix := Δ, arr := bs } (mkChain (rest.map RL.sem) body)
-  | [], ρp, Δ, Γ, hren, hav, _, _, _, _, _, hsafe, hbody => by
+  | [], ρp, Δ, Γ, hren, hav, _, _, _, _, _, _, _, hsafe, hbody => by
     simpa [mkChain] using hbody Δ Γ (by simpa using hren) hav (by simpa [mkChain] using hsafe)
-  | r :: rest, ρp, Δ, Γ, hren, hav, hT, hr, hndv, hndu, hth, hsafe, hbody => by
-    obtain ⟨hrU, hrtl, hrtu, hrv, hru⟩ := hr r (by simp)
+  | r :: rest, ρp, Δ, Γ, hren, hav, hT, hΔ, hr, hndv, hndu, hth, hsem, hsafe, hbody => by
+    obtain ⟨hrU, hrtl, hrtu, hrV, hrv, hru⟩ := hr r (by simp)
     obtain ⟨hl, hh⟩ := hth r (by simp)
     have hndv' : r.v ∉ rest.map (·.v) ∧ (rest.map (·.v)).Nodup := List.nodup_cons.1 hndv
     have hndu' : r.u ∉ rest.map (·.u) ∧ (rest.map (·.u)).Nodup := List.nodup_cons.1 hndu
     simp only [List.map_cons, RL.ker, RL.sem, mkChain] at hsafe ⊢
+    simp only [Safe] at hsafe
+    obtain ⟨hslo, hshi, hsbody⟩ := hsafe
+    obtain ⟨hsemL, hsemH⟩ := hsem r (by simp) Δ hΔ
     rw [eval_reduce_eq, eval_reduce_eq]
-    have e1 : eval { pt := pK, ix := Γ, arr := σl } (hoistedLo r.tl) = .i r.l := eval_temp hl (hT _ hrtl)
-    have e2 : eval { pt := pK, ix := Γ, arr := σl } (hoistedHi r.tu) = .i r.h := by
+    have e1 : eval { pt := pK, ix := Γ, arr := σl } (hoistedLo r.tl) = VL r := eval_temp hl (hT _ hrtl)
+    have e2 : (eval { pt := pK, ix := Γ, arr := σl } (hoistedHi r.tu)).toInt? = (VH r).toInt? := by
       have h0 := eval_temp (pt := pK) hh (hT _ hrtu)
       unfold hoistedHi
       rw [eval_add_eq, eval_add_eq, h0]
-      show Val.i (-1 + r.h + 1) = Val.i r.h
-      congr 1
-      omega
-    have e3 : eval { pt := p, ix := Δ, arr := bs } (.int r.l) = .i r.l := by simp [eval]
-    have e4 : eval { pt := p, ix := Δ, arr := bs } (.int r.h) = .i r.h := by simp [eval]
+      exact toInt_hoistedHi (VH r)
+    have e3 := hsemL hslo
+    have e4 := hsemH hshi
     rw [e1, e2, e3, e4]
-    simp only [Val.toInt?]
-    congr 1
-    apply List.map_congr_left
-    intro k hk
-    have hk' : k < (r.h - r.l).toNat := List.mem_range.1 hk
-    have hsafe' : Safe { pt := p, ix := (r.v, r.l + (k : Int)) :: Δ, arr := bs } (mkChain (rest.map RL.sem) body) := by
-      simp only [Safe] at hsafe
-      exact hsafe.2.2 r.l r.h (by rw [e3]; rfl) (by rw [e4]; rfl) k hk'
-    have hren' := hren.step hrv hru (r.l + (k : Int))
-    apply chain_eval σl bs P pK p body bodyK U T hUT hP rest (ρp ++ [(r.v, r.u)]) _ _ hren'
-    · exact hP _ _ _ hrU hav
-    · intro t ht
-      rw [lookupIxL_cons, if_neg (fun (e : r.u = t) => hUT t ht (by rw [← e]; exact hrU))]
-      exact hT t ht
-    · intro r' hr'
-      obtain ⟨a1, a2, a3, a4, a5⟩ := hr r' (List.mem_cons_of_mem _ hr')
-      refine ⟨a1, a2, a3, ?_, ?_⟩
-      · simp only [List.map_append, List.map_cons, List.map_nil, List.mem_append, List.mem_singleton, not_or]
-        exact ⟨a4, fun e => hndv'.1 (e ▸ List.mem_map.2 ⟨r', hr', rfl⟩)⟩
-      · simp only [List.map_append, List.map_cons, List.map_nil, List.mem_append, List.mem_singleton, not_or]
-        exact ⟨a5, fun e => hndu'.1 (e ▸ List.mem_map.2 ⟨r', hr', rfl⟩)⟩
-    · exact hndv'.2
-    · exact hndu'.2
-    · exact fun r' hr' => hth r' (List.mem_cons_of_mem _ hr')
-    · exact hsafe'
-    · intro Δ' Γ' h1 h2 h3
-      apply hbody Δ' Γ' _ h2 h3
-      simpa [RL.pair, List.append_assoc] using h1
+    cases hvl : (VL r).toInt? with
+    | none => rfl
+    | some l =>
+      cases hvh : (VH r).toInt? with
+      | none => rfl
+      | some h =>
+        simp only
+        congr 1
+        apply List.map_congr_left
+        intro k hk
+        have hk' : k < (h - l).toNat := List.mem_range.1 hk
+        have hsafe' : Safe { pt := p, ix := (r.v, l + (k : Int)) :: Δ, arr := bs } (mkChain (rest.map RL.sem) body) :=
+          hsbody l h (by rw [e3]; exact hvl) (by rw [e4]; exact hvh) k hk'
+        have hren' := hren.step hrv hru (l + (k : Int))
+        apply chain_eval σl bs P pK p body bodyK U T V VL VH hUT hP rest (ρp ++ [(r.v, r.u)]) _ _ hren'
+        · exact hP _ _ _ hrU hav
+        · intro t ht
+          rw [lookupIxL_cons, if_neg (fun (e : r.u = t) => hUT t ht (by rw [← e]; exact hrU))]
+          exact hT t ht
+        · intro x hx
+          rw [lookupIxL_cons, if_neg (fun (e : r.v = x) => hx (by rw [← e]; exact hrV))]
+          exact hΔ x hx
+        · intro r' hr'
+          obtain ⟨a1, a2, a3, a3', a4, a5⟩ := hr r' (List.mem_cons_of_mem _ hr')
+          refine ⟨a1, a2, a3, a3', ?_, ?_⟩
+          · simp only [List.map_append, List.map_cons, List.map_nil, List.mem_append, List.mem_singleton, not_or]
+            exact ⟨a4, fun e => hndv'.1 (e ▸ List.mem_map.2 ⟨r', hr', rfl⟩)⟩
+          · simp only [List.map_append, List.map_cons, List.map_nil, List.mem_append, List.mem_singleton, not_or]
+            exact ⟨a5, fun e => hndu'.1 (e ▸ List.mem_map.2 ⟨r', hr', rfl⟩)⟩
+        · exact hndv'.2
+        · exact hndu'.2
+        · exact fun r' hr' => hth r' (List.mem_cons_of_mem _ hr')
+        · exact fun r' hr' => hsem r' (List.mem_cons_of_mem _ hr')
+        · exact hsafe'
+        · intro Δ' Γ' h1 h2 h3
+          apply hbody Δ' Γ' _ h2 h3
+          simpa [RL.pair, List.append_assoc] using h1
 
 end LG
 end Pt
